@@ -696,6 +696,8 @@ def gen_case(rng, cid, py_builtins, stats):
             base = spaces[b]
             sp["_ints"].update(base["_ints"]); sp["_lists"].update(base["_lists"])
             sp["_spaces"].update(base["_spaces"])
+            if base.get("_cells_ref"):
+                sp.setdefault("_cells_ref", {}).update(base["_cells_ref"])
             for n in base["_order"]:
                 sp["_cells"][n] = base["_cells"][n]; sp["_order"].append(n)
             for j in children(b):      # derived child spaces
@@ -751,8 +753,8 @@ def gen_case(rng, cid, py_builtins, stats):
                 sp["_spaces"]["sib"] = info_of(spaces[j])
         for n in r.sample(CELL_REFS, r.randint(0, 1)):
             cj = [j for j in cand if spaces[j]["_order"] and not any(spaces[t].get("params") is not None for t in chain(j))]
-            if not cj:
-                continue
+            if not cj or n in sp.get("_cells_ref", {}):
+                continue        # an inherited cells reference keeps its target (inherited formulas call it with its arity)
             j = r.choice(cj)
             cn = r.choice(spaces[j]["_order"])
             sp["refs"].append([n, ["cells", j, cn]])
@@ -894,14 +896,6 @@ def gen_case(rng, cid, py_builtins, stats):
         cells = [(n, sp["_cells"][n]) for n in sp["_order"]]
         if cells:
             add_queries(i, cells, paths_to(i))
-    # derived child spaces (children of a base show up under the derived space)
-    for i, sp in enumerate(spaces):
-        for b in sp["bases"]:
-            for j in children(b):
-                cj = spaces[j]
-                cells = [(n, cj["_cells"][n]) for n in cj["_order"]]
-                if cells and cj.get("params") is None and sp.get("params") is None:
-                    add_queries(j, cells, [[["attr", sp["name"]], ["attr", cj["name"]]]])
     if not queries:
         return None
     out_spaces = []
